@@ -11,6 +11,11 @@ NOTE = ("Trusted base: go/types + go/ssa (x/tools v0.29.0) as a faithful model o
 
 # id -> (built?, technique, level text, design_ref, reason-if-not-built)
 P = {
+ "C05": (True, "must-pass / reachability path rules with nil-fact path sensitivity on go/ssa (io.Reader contract, defer registration, pairing)",
+         "Decides on every path of halfPipe/Proxy: data returned with a read error is written before the loop exits; the written slice is the read prefix and counters use the write count; the loop continues only after a full, error-free write; "
+         "WaitGroup release and close of both connections are deferred before the first return and the closer always reaches Close; wg.Add matches the goroutines started; session gauge paired; covert and client connections closed by defers. "
+         "This covers every fault position structurally (each exit edge of the loop), which the sampled fault tests cannot; stream equality under all chunkings is not decided.",
+         "4/C05"),
  "C09": (True, "lockset guarded-by with helper summaries, channel-operation shape rules, lock-order graph, blocking reachability (go/ssa)",
          "Decides for every schedule: the registration maps/flags are only touched under the registration mutex (write lock for writes), the New announcement has a single locked call site dominated by !Valid with Valid=true stored first, "
          "hand-off sends are non-blocking with counted drops and a fixed worker pool, every blocking wait in the pipeline includes the stop signal, lock order is acyclic and nothing blocking runs under the registration lock except the reviewed Redis publish. "
